@@ -1244,7 +1244,17 @@ namespace ipr {
       }
 
       void visit(const Type& t) final { pp << xpr_type(t); }
-      void visit(const Expr& e) final { pp << xpr_assignment_expression(e); }
+      void visit(const Expr& e) final
+      {
+         // Last resort: an expression that no production knows how to print is reported, not retried.
+         // (The primary-expression production parenthesizes unknown expressions and comes back here.)
+         struct Last_resort : xpr::Assignment_expr {
+            using xpr::Assignment_expr::Assignment_expr;
+            void visit(const Expr& x) final { Missing_overrider{ }(x); }
+         };
+         Last_resort impl { pp };
+         e.accept(impl);
+      }
       void visit(const Stmt& s) final { pp << xpr_stmt(s); }
       void visit(const Decl& d) final
       {
@@ -1470,9 +1480,15 @@ namespace ipr {
 
       void visit(const Type& t) final
       {
-         // FIXME: Check.
+         // A type whose only name is the type-id of itself has no spelling other than a type expression:
+         // printing that name would come back here forever.
+         if (auto id = util::view<Type_id>(t.name()); id != nullptr and physically_same(id->type_expr(), t))
+            Missing_overrider{ }(t);
          pp << xpr_name(t.name());
       }
+
+      void visit(const Decltype& t) final
+      { pp << xpr_type_expr(t); }
 
       void visit(const Product& t) final
       {
